@@ -81,4 +81,10 @@ theorem sq_sub_ten_cos (a b : ℝ) : (-10 : ℝ) ≤ a ^ 2 - ((10 : ℕ) : ℝ) 
 theorem sum_nonneg_of_mem (l : List ℝ) (h : ∀ v ∈ l, 0 ≤ v) : 0 ≤ l.sum := by
   have := sum_map_nonneg l id (by simpa using h); simpa using this
 
+theorem zipWith_ofFn {n : Nat} (g : ℝ → ℝ → ℝ) (a b : Fin n → ℝ) :
+    List.zipWith g (List.ofFn a) (List.ofFn b) = List.ofFn fun i => g (a i) (b i) := by
+  apply List.ext_getElem (by simp)
+  intro i h1 h2
+  simp
+
 end C20L
